@@ -722,6 +722,9 @@ func genCase(o opts) func(rt *rapid.T) Case {
 			r.Unknown = append(r.Unknown, xmpgen.Prop{NS: rapid.SampledFrom([]string{"photoshop", "lr", "zz", "Iptc4xmpCore", "exif", "tiff", "xmp", "aux", "crs"}).Draw(rt, "uns"),
 				Name:  rapid.SampledFrom([]string{"Unknown", "ColorMode", "hierarchicalSubject", "Zz9", "XResolution", "ExifVersion", "Firmware", "Nickname", "Location"}).Draw(rt, "uname"),
 				Value: xmpgen.Text(rt, "uval", rapid.IntRange(0, 5).Draw(rt, "ulong") == 0), Elem: rapid.Bool().Draw(rt, "uelem"), Quote: '"', Block: rapid.IntRange(0, 2).Draw(rt, "ublock")})
+			if u := &r.Unknown[len(r.Unknown)-1]; u.Elem && rapid.IntRange(0, 3).Draw(rt, "uempty") == 0 {
+				u.Empty = true // an empty-element tag <ns:name/> between the known properties
+			}
 		}
 		c := Case{Rec: r, Ext: o.ext}
 		if o.over {
